@@ -1,12 +1,14 @@
 import Driver.C17
 import Driver.Store
 import Driver.UUIDp
+import Driver.Lex
 
 def main (args : List String) : IO UInt32 := do
   match args with
   | ["c17"] => Driver.C17.main; return 0
   | ["store", mode] => Driver.Store.main mode; return 0
   | ["uuid", mode] => Driver.UUIDp.main mode; return 0
+  | ["lex"] => Driver.Lex.main; return 0
   | _ =>
     IO.eprintln "usage: bwdriver <protocol>"
     return 2
